@@ -1,5 +1,6 @@
 import FV.Model.Global
 import FV.Proofs.Geom
+import FV.Props.C07
 /-
   C20 — results do not depend on what the process did before.
 
@@ -136,6 +137,28 @@ theorem overlap_history_indep (sqrt : α → α) (hmono : ∀ x y, x ≤ y → s
     hist hh
 
 end ordered
+
+/-! ### the process-wide ROBDD store (second piece of surviving state) -/
+
+section store
+open FV.PB FV.Sat
+
+/-- **constraint encoding is history independent**: whatever inequalities earlier managers of the process encoded
+    (histories `h`, `h'` of `getrobdd` calls growing the shared store — including none), a fresh manager that is posted
+    the same constraints restricts the user's variables to exactly the same assignments.  (Corollary of
+    `C07.store_history_wf` and `C07.post_history_exact`: the meaning of an encoding does not depend on the store it
+    starts from; the clause text differs only in the numbering of diagram nodes.) -/
+theorem encoding_history_indep (h h' : List (Ineq Var × Bool))
+    (hpos : ∀ qd ∈ h, ∀ t ∈ qd.1.lhs.t, 0 < t.c) (hpos' : ∀ qd ∈ h', ∀ t ∈ qd.1.lhs.t, 0 < t.c)
+    {ps : List Post} {m m2 : Mgr} {S S2 : Store Var}
+    (r : Run {} (storeRun h Store.init) ps m S) (r' : Run {} (storeRun h' Store.init) ps m2 S2)
+    (hps : ∀ p ∈ ps, p.WF) (σ : Var → Bool) :
+    (∃ τ, (∀ v, isUser v → τ v = σ v) ∧ cnfTrue τ m.clauses) ↔
+    (∃ τ, (∀ v, isUser v → τ v = σ v) ∧ cnfTrue τ m2.clauses) := by
+  rw [FV.C07.post_history_exact (FV.C07.store_history_wf h hpos).1 r hps σ,
+    FV.C07.post_history_exact (FV.C07.store_history_wf h' hpos').1 r' hps σ]
+
+end store
 
 /-! ### non-vacuity -/
 example : (runHistory (fun x : ℚ => x) none [3, 5, 7]).map (·.dist) = some 3 := by decide +kernel
